@@ -155,12 +155,9 @@ def reencode_taint(m):
         if tree is None:
             return None
         if r["der"].startswith("ENCFAIL@"):
-            # the decoders answer RC_OK with NO alternative selected when an extensible CHOICE meets an alternative it does
-            # not know; such a CHOICE cannot be encoded and CHOICE_constraint says so, but as a member of a SEQUENCE behind a
-            # member without a checker of its own it is never asked (C08-sequence-early-return)
-            w = m.get("w", {}).get(meta["tn"])
-            if w and w["kind"] == "choice" and w["wrap"] == "InSeq" and r["der"] == "ENCFAIL@" + w["base"]:
-                return "C08-sequence-early-return"
+            # (an extensible CHOICE that meets an alternative it does not know is returned RC_OK with NOTHING selected; it
+            # cannot be encoded and CHOICE_constraint says so: ck != 0.  Until /repo aaca4bb the checker of an enclosing
+            # SEQUENCE never asked it (C08-sequence-early-return) and this was classified here; no classifier since.)
             return None
         if meta["syn"] == "uper" and C01.has_semi_lb(tree):
             return "C01-uper-semiconstrained-lb"
@@ -718,7 +715,7 @@ def refine_disagreement(run, m, line, o, me, r, n, v, d):
     run.violation("refinement:Rt.%s_dec" % syn, rep)
 
 
-FOREIGN_IDS = {"C01-uper-semiconstrained-lb", "C16-umax-negative", "C16-ulong-signed", "C08-sequence-early-return"}
+FOREIGN_IDS = {"C01-uper-semiconstrained-lb", "C16-umax-negative", "C16-ulong-signed"}
 
 
 def all_findings():
